@@ -67,19 +67,24 @@ def norm_key(k):
     return {"A": "Z", "LA": "LZ"}.get(k, k)
 
 
-TYPES_PRELUDE = '''Wir nennen die Kombination aus
+STRUCT_DECL = '''Wir nennen die Kombination aus
 	der Zahl fz mit Standardwert 0,
 	dem Text ft mit Standardwert "",
 	der Zahlen Liste fl mit Standardwert eine leere Zahlen Liste,
 einen Punkt, und erstellen sie so:
 	"Nullpunkt"
-Wir nennen eine Zahl auch eine Ganzzahl.
-Wir definieren eine Nummer als eine Zahl.
 '''
+ALIAS_DECL = "Wir nennen eine Zahl auch eine Ganzzahl.\n"
+DEF_DECL = "Wir definieren eine Nummer als eine Zahl.\n"
+TYPES_PRELUDE = STRUCT_DECL + ALIAS_DECL + DEF_DECL
+TARGET_KEYS = list(KEYS) + ["LA"]
 
 
-def var_decls(prefix):
-    return "".join("%s %s %s%s ist %s.\n" % (art, name, prefix, k, init) for (k, name, art, init, _) in CLASSES)
+def var_decl(prefix, k):
+    if k == "LA":
+        return "Die Ganzzahl Liste %sLA ist eine leere Ganzzahl Liste.\n" % prefix
+    _, name, art, init, _ = CLS[k]
+    return "%s %s %s%s ist %s.\n" % (art, name, prefix, k, init)
 
 
 def fun_decl(k):
@@ -88,9 +93,32 @@ def fun_decl(k):
             'Und kann so benutzt werden:\n\t"nimm_%s <a>"\n' % (k, name, k))
 
 
-PRELUDE = TYPES_PRELUDE + var_decls("v") + var_decls("t") + "Die Ganzzahl Liste tLA ist eine leere Ganzzahl Liste.\n" + \
-    "".join(fun_decl(k) for k in list(KEYS) + ["LA"])
+def gib_decl(k):
+    return 'Die Funktion gib_%s gibt %s zurück, macht:\n\tGib v%s zurück.\nUnd kann so benutzt werden:\n\t"gib_%s"\n' % (k, CLS[k][4], k, k)
+
+
+# the frontend leg uses one fixed prelude (diagnostics are attributed by line)
+PRELUDE = TYPES_PRELUDE + "".join(var_decl("v", k) for k in KEYS) + "".join(var_decl("t", k) for k in TARGET_KEYS) + \
+    "".join(fun_decl(k) for k in TARGET_KEYS)
 PRELUDE_LINES = PRELUDE.count("\n")
+# second operand flavour (thorough tier): operands are results of calls, i.e. temporaries instead of variables
+PRELUDE_TEMP = PRELUDE + "".join(gib_decl(k) for k in KEYS)
+
+
+def minimal_prelude(body):
+    """the declarations the statements of `body` refer to (kddp's cost grows with the prelude; the statements of a cell
+    are independent of declarations they do not name)"""
+    ids = set(re.findall(r"\b(?:v|t|nimm_|gib_)[A-Z]{1,2}\b", body))
+    gib = [k for k in KEYS if "gib_" + k in ids]
+    need_v = [k for k in KEYS if "v" + k in ids or k in gib]
+    nimm = [k for k in TARGET_KEYS if "nimm_" + k in ids]
+    need_t = [k for k in TARGET_KEYS if "t" + k in ids or (k == "Z" and nimm)]
+    decls = "".join(var_decl("v", k) for k in need_v) + "".join(var_decl("t", k) for k in need_t) + \
+        "".join(fun_decl(k) for k in nimm) + "".join(gib_decl(k) for k in gib)
+    text = decls + body
+    head = (STRUCT_DECL if "Punkt" in text else "") + (ALIAS_DECL if "Ganzzahl" in text else "") + (DEF_DECL if "Nummer" in text else "")
+    return head + decls
+
 
 UNOPS = {
     "UN_ABS": "der Betrag von (%s)",
@@ -135,28 +163,29 @@ TEROPS = {
 FIELDS = ["fz", "ft", "fl"]
 
 
-def all_cells(ops):
-    """[(kind, op, operand keys, expression text)] — the whole operator x type-class space"""
+def all_cells(ops, v="v"):
+    """[(kind, op, operand keys, expression text)] — the whole operator x type-class space; operands are the
+    variables v<class> (or the calls gib_<class> for the temporary flavour)"""
     un, bi, te = ops
     out = []
     for op in un:
         for a in KEYS:
-            out.append(("U", op, (a,), UNOPS[op] % ("v" + a)))
+            out.append(("U", op, (a,), UNOPS[op] % (v + a)))
     for op in bi:
         for a in KEYS:
             for b in KEYS:
-                out.append(("B", op, (a, b), BINOPS[op] % ("v" + a, "v" + b)))
+                out.append(("B", op, (a, b), BINOPS[op] % (v + a, v + b)))
     for f in FIELDS:
         for b in KEYS:
-            out.append(("F", "BIN_FIELD_ACCESS", (f, b), "%s von (v%s)" % (f, b)))
+            out.append(("F", "BIN_FIELD_ACCESS", (f, b), "%s von (%s%s)" % (f, v, b)))
     for op in te:
         for a in KEYS:
             for b in KEYS:
                 for c in KEYS:
-                    out.append(("T", op, (a, b, c), TEROPS[op] % ("v" + a, "v" + b, "v" + c)))
+                    out.append(("T", op, (a, b, c), TEROPS[op] % (v + a, v + b, v + c)))
     for a in KEYS:
         for t in KEYS:
-            out.append(("C", "CAST_OP", (a, t), "(v%s) als %s" % (a, CLS[t][1])))
+            out.append(("C", "CAST_OP", (a, t), "(%s%s) als %s" % (v, a, CLS[t][1])))
     return out
 
 
@@ -220,15 +249,17 @@ def run_cellx(cx, b, reqs):
     return [json.loads(l) for l in p.stdout.splitlines()]
 
 
-def frontend_batch(cx, b, items, size=400, jobs=vlib.NCPU):
+def frontend_batch(cx, b, items, size=400, jobs=vlib.NCPU, prelude=None):
     """items: [(uid, statement text)] -> {uid: (accepted, init type key or None)}; the statement must start on its own
     line; diagnostics are attributed to statements by line ranges"""
+    prelude = PRELUDE if prelude is None else prelude
+    plines = prelude.count("\n")
     chunks = [items[i:i + size] for i in range(0, len(items), size)]
     reqs = []
     spans = []
     for ci, ch in enumerate(chunks):
-        src = PRELUDE
-        line = PRELUDE_LINES + 1
+        src = prelude
+        line = plines + 1
         sp = []
         for uid, text in ch:
             n = text.count("\n")
@@ -251,7 +282,7 @@ def frontend_batch(cx, b, items, size=400, jobs=vlib.NCPU):
             problems.append((ci, r))
             continue
         badlines = sorted(d["line"] for d in (r.get("diags") or []))
-        if any(l <= PRELUDE_LINES for l in badlines):
+        if any(l <= plines for l in badlines):
             problems.append((ci, r))
             continue
         decl_at = {d["line"]: d for d in (r.get("decls") or [])}
@@ -277,21 +308,31 @@ def classify(r):
     return "frontend-reject"
 
 
-def compile_prog(b, sc, name, body, opt=0):
+def excerpt(out):
+    """the informative part of kddp's / gcc's output (the Go stack trace of an internal error is dropped)"""
+    i = out.find("Unerwarteter Fehler")
+    if i >= 0:
+        msg = out[i:i + 700]
+        j = msg.find("goroutine ")
+        return msg[:j] if j > 0 else msg
+    return out[-1000:]
+
+
+def compile_prog(b, sc, name, body, opt=0, prelude=None):
     path = os.path.join(sc, name + ".ddp")
     with open(path, "w") as fh:
-        fh.write(PRELUDE + body)
+        fh.write((minimal_prelude(body) if prelude is None else prelude) + body)
     r = b.compile(path, os.path.join(sc, name), opt=opt)
     for ext in ("", ".o"):
         try:
             os.unlink(os.path.join(sc, name) + ext)
         except OSError:
             pass
-    return classify(r), r["out"][-1200:]
+    return classify(r), excerpt(r["out"])
 
 
 # ------------------------------------------------------------------------------------------------
-# regenerated table: the operator enumerations of src/ast/operators.go -> coq/Gen/Operators.v
+# regenerated table: the operator enumerations of src/ast/operators.go -> coq/Gen/OperatorEnum.v
 # ------------------------------------------------------------------------------------------------
 def read_operators():
     """([unary], [binary], [ternary], [cast]) constant names in declaration order, *_INVALID and *_end excluded"""
@@ -321,10 +362,10 @@ def regen_operators(ck):
     txt += "From Coq Require Import List.\nImport ListNotations.\n"
     txt += ind("unop", un) + ind("binop", bi) + ind("terop", te) + ind("castop", ca)
     txt += lst("all_unops", "unop", un) + lst("all_binops", "binop", bi) + lst("all_terops", "terop", te) + lst("all_castops", "castop", ca)
-    path = os.path.join(vlib.COQ, "Gen", "Operators.v")
+    path = os.path.join(vlib.COQ, "Gen", "OperatorEnum.v")
     old = open(path).read() if os.path.exists(path) else ""
     if txt != old:
-        log("[gen] Gen/Operators.v changed -> rebuilding dependants")
+        log("[gen] Gen/OperatorEnum.v changed -> rebuilding dependants")
         with open(path, "w") as fh:
             fh.write(txt)
     return un, bi, te, ca
@@ -421,14 +462,15 @@ def extra_cells():
 # backend driver: batches with bisection
 # ------------------------------------------------------------------------------------------------
 class Backend:
-    def __init__(self, b, sc):
-        self.b, self.sc, self.n, self.programs = b, sc, 0, 0
+    def __init__(self, b, sc, prelude=None):
+        import itertools
+        self.b, self.sc, self.seq, self.programs, self.prelude = b, sc, itertools.count(1), 0, prelude
 
     def compile_items(self, items):
         """items: [(key, text)] in one program -> (verdict, output)"""
-        self.n += 1
-        self.programs += 1
-        return compile_prog(self.b, self.sc, "p%d_%d" % (os.getpid(), self.n), "".join(t for _, t in items))
+        n = next(self.seq)     # atomic: compile_items runs on the worker threads of pmap
+        self.programs = n
+        return compile_prog(self.b, self.sc, "p%d_%d_%d" % (os.getpid(), id(self) % 9973, n), "".join(t for _, t in items), prelude=self.prelude)
 
     def isolate(self, items):
         """items believed to compile; returns {key: (verdict, output)} for the items that do not (bisection)"""
@@ -456,6 +498,21 @@ def main():
         "one representative per class: one Kombination (three fields), one alias and one definition of Zahl; the checker inspects operand types only through Equal/IsNumeric/IsList/IsPrimitive/IsAny/CastTypeDef",
         "harness cellx: parser.Parse of /repo in-process, admission per statement by diagnostic line, checker type = VarDecl.InitType",
     ]
+    if ck.replay:
+        # re-run one recorded failing program against the current tree
+        rp = json.load(open(ck.replay))
+        ok, lg = b.ensure_native()
+        sc = vlib.scratch()
+        path = os.path.join(sc, "replay.ddp")
+        with open(path, "w") as fh:
+            fh.write(rp["replay"]["program"])
+        r = b.compile(path, os.path.join(sc, "replay"))
+        v = classify(r)
+        log("[replay] %s -> %s" % (rp.get("key"), v))
+        if v != "ok":
+            ck.violations.append((rp.get("key"), "replayed program still fails: %s %s" % (v, excerpt(r["out"])[:300]), rp["replay"], False))
+        ck.cov["evaluations"] = 1
+        ck.finish()
     ops = regen_operators(ck)
     coq_ok = ck.coq()
     ok, lg = b.ensure_native()
@@ -486,13 +543,14 @@ def main():
 
     def report(key, verdict, out, text, extra=None):
         """a frontend-accepted program that kddp does not compile"""
-        what = "the frontend accepts the program, kddp answers %s: %s" % (verdict, " ".join(out.split())[-300:] if verdict != "internal-error" else " ".join(out.split())[:300])
-        rep = dict(program=PRELUDE + text, statement=text, verdict=verdict, output=out[-1500:], how="DDPPATH=<build> kddp kompiliere prog.ddp -o prog.o")
+        what = "the frontend accepts the program, kddp answers %s: %s" % (verdict, " ".join(out.split())[:400])
+        rep = dict(program=minimal_prelude(text) + text, statement=text, verdict=verdict, output=out[-1500:], how="DDPPATH=<build> kddp kompiliere prog.ddp -o prog.o")
         if extra:
             rep.update(extra)
+            rep.pop("prelude", None)
         new = ck.violation(key, what, rep)
         fn = os.path.join(corpus_dir, re.sub(r"[^A-Za-z0-9_=,.-]+", "_", key)[:150] + ".ddp")
-        if not os.path.exists(fn):
+        if new and not os.path.exists(fn) and len(os.listdir(corpus_dir)) < 200:
             with open(fn, "w") as fh:
                 fh.write("[%s]\n" % key + text)
         return new
@@ -505,14 +563,17 @@ def main():
             m = re.match(r"\[(.*?)\]\n", txt)
             if m:
                 corpus.append((m.group(1), txt[m.end():]))
-    if corpus:
-        fr, _ = frontend_batch(cx, b, [(i, t) for i, (k, t) in enumerate(corpus)], size=50)
-        todo = [(i, corpus[i]) for i in range(len(corpus)) if fr.get(i, (False, None))[0]]
-        res = vlib.pmap(lambda it: be.compile_items([it[1]]), todo)
-        for (i, (k, t)), (v, out) in zip(todo, res):
+    for prel in (PRELUDE, PRELUDE_TEMP):
+        part = [(k, t) for (k, t) in corpus if (re.search(r" ctx=[A-Z]+t ", k) is not None) == (prel is PRELUDE_TEMP)]
+        if not part:
+            continue
+        fr, _ = frontend_batch(cx, b, [(i, t) for i, (k, t) in enumerate(part)], size=50, prelude=prel)
+        todo = [part[i] for i in range(len(part)) if fr.get(i, (False, None))[0]]
+        cbe = Backend(b, sc)
+        for (k, t), (v, out) in zip(todo, vlib.pmap(lambda it: cbe.compile_items([it]), todo)):
             ck.count()
             if v != "ok":
-                report(k, v, out, t)
+                report(k, v, out, t, dict(prelude="PRELUDE_TEMP" if prel is PRELUDE_TEMP else "PRELUDE"))
 
     # ---- 1. frontend over the whole cell space ----------------------------------------------------
     fres, problems = frontend_batch(cx, b, [(i, ctx_stmt("VI", "V", c[3], i)) for i, c in enumerate(cells)])
@@ -557,7 +618,7 @@ def main():
     if problems:
         ck.broken_obligation("cellx could not process %d context batches: %s" % (len(problems), str(problems[0][1])[:400]), "")
     ck.count(len(units))
-    ukey = {u: "cell %s ctx=%s" % (cell_name(cells[i]), x) for (u, i, x) in units}
+    ukey = {u: "cell %s type=%s ctx=%s" % (cell_name(cells[i]), admitted[i], x) for (u, i, x) in units}
     good, single = [], []
     skipped = 0
     for (u, i, x) in units:
@@ -614,6 +675,50 @@ def main():
         ck.broken_obligation("lowering table: %d (cell, context) verdicts differ between model and kddp, e.g. %s: model %s, kddp %s" % ((len(disagreements),) + disagreements[0]), json.dumps(disagreements[:40]))
     elif disagreements:
         log("[c02] %d model/kddp verdict disagreements (violations reported): %s" % (len(disagreements), disagreements[:10]))
+    # ---- 3b. thorough: the same cells with temporaries (call results) as operands --------------------
+    temp_units = 0
+    if not quick:
+        tcells = all_cells((un, bi, te), v="gib_")
+        tfres, problems = frontend_batch(cx, b, [(i, ctx_stmt("VI", "V", c[3], i)) for i, c in enumerate(tcells)], prelude=PRELUDE_TEMP)
+        if problems:
+            ck.broken_obligation("cellx could not process %d frontend batches of the temporary flavour: %s" % (len(problems), str(problems[0][1])[:400]), "")
+        ck.count(len(tcells))
+        tadm = {i: tfres[i][1] for i in range(len(tcells)) if tfres.get(i, (False, None))[0]}
+        if tadm != admitted:
+            diff = sorted(set(tadm.items()) ^ set(admitted.items()))[:5]
+            ck.broken_obligation("the checker decides cells differently for temporaries than for variables: %s" % [(cell_name(cells[i]), t) for i, t in diff], "")
+        tbe = Backend(b, sc)
+        tunits = [(n, i, x) for n, (i, x) in enumerate((i, x) for i in sorted(tadm) if i in want_ctx for x in ("VI", "IN", "AR", "RT", "EL") if x in want_ctx[i])]
+        tstmt = {u: ctx_stmt(x, tadm[i], tcells[i][3], u) for (u, i, x) in tunits}
+        tkey = {u: "cell %s type=%s ctx=%st" % (cell_name(tcells[i]), tadm[i], x) for (u, i, x) in tunits}
+        tcres, _ = frontend_batch(cx, b, [(u, tstmt[u]) for (u, i, x) in tunits], prelude=PRELUDE_TEMP)
+        tgood = [u for (u, i, x) in tunits if tcres.get(u, (False, None))[0] and pred.get(i, {}).get("ctx", {}).get(x) in (None, "ok")]
+        tsingle = [u for (u, i, x) in tunits if tcres.get(u, (False, None))[0] and u not in set(tgood)]
+        ck.rng.shuffle(tgood)
+        treal = {u: ("ok", "") for u in tgood}
+        for r in vlib.pmap(lambda bt: tbe.isolate([(u, tstmt[u]) for u in bt]), [tgood[k:k + BATCH] for k in range(0, len(tgood), BATCH)]):
+            treal.update(r)
+        for u, r in zip(tsingle, vlib.pmap(lambda u: tbe.compile_items([(u, tstmt[u])]), tsingle)):
+            treal[u] = r
+        tcell_of = {u: (i, x) for (u, i, x) in tunits}
+        tdis = []
+        for u, (v, out) in sorted(treal.items()):
+            i, x = tcell_of[u]
+            ck.nontrivial((cells[i][1], cells[i][2], x, "temp"))
+            p = pred.get(i, {}).get("ctx", {}).get(x) if model_ok else None
+            if v == "frontend-reject":
+                ck.broken_obligation("kddp reports a frontend error for %s which parser.Parse (cellx) accepted" % tkey[u], out[-600:])
+                continue
+            if v != "ok":
+                n_viol += 1
+                report("%s verdict=%s" % (tkey[u], v), v, out, tstmt[u], dict(cell=cell_name(cells[i]), context=x, operands="temporaries (call results)", checker_type=tadm[i], model_prediction=p, prelude="PRELUDE_TEMP"))
+            if model_ok and p != v:
+                tdis.append((tkey[u], p, v))
+        if tdis and not ck.violations:
+            ck.broken_obligation("lowering table (temporary operands): %d verdicts differ between model and kddp, e.g. %s: model %s, kddp %s" % ((len(tdis),) + tdis[0]), json.dumps(tdis[:40]))
+        disagreements += tdis
+        temp_units = len(treal)
+        be.programs += tbe.programs
     # ---- 4. statement-level operand positions (direct judgement) -----------------------------------
     ex = extra_cells()
     eres, problems = frontend_batch(cx, b, [(j, t) for j, (k, t) in enumerate(ex)])
@@ -624,7 +729,7 @@ def main():
     if quick:
         eacc = [j for j in eacc if not ex[j][0].startswith("stmt=FORSTEP") or ck.rng.random() < 0.35]
     known_pat = [re.compile(k["key"]) for k in ck.known]
-    esingle = [j for j in eacc if any(p.search(ex[j][0] + " verdict=") or p.search(ex[j][0]) for p in known_pat)]
+    esingle = [j for j in eacc if any(p.search(ex[j][0] + " verdict=" + v) for p in known_pat for v in ("internal-error", "llvm-reject", "link-fail"))]
     egood = [j for j in eacc if j not in set(esingle)]
     ck.rng.shuffle(egood)
     ebad = {}
@@ -645,7 +750,7 @@ def main():
     ck.cov.update(dict(
         exhaustive=True, cells=len(cells), admitted_cells=len(admitted), context_units=len(units), compiled_units=len(real), skipped_units_quick=skipped,
         predicted_bad_units=len(single), programs_compiled=be.programs, statement_cells=len(ex), statement_cells_admitted=len(eacc),
-        failing_units=n_viol, model_disagreements=len(disagreements), checker_table_mismatches=len(tc_mismatch),
+        temporary_flavour_units=temp_units, failing_units=n_viol, model_disagreements=len(disagreements), checker_table_mismatches=len(tc_mismatch),
         operators=dict(unary=un, binary=bi, ternary=te, cast=ca), type_classes=KEYS, contexts=CTX_ALL,
         input_distribution="enumeration, no sampling in the frontend leg: every operator of operators.go x every tuple of %d operand classes (%d cells) through the real frontend; every admitted cell x every applicable value context (%s) through kddp+LLVM+gcc (quick tier: initialiser contexts VI/IN for every admitted cell, 20%% seeded sample of the other contexts of cells predicted fine, every (cell, context) predicted bad alone); statement operand positions (repeat count, loop condition, list count/literal, indexed assignment, counting and range loops) x classes judged directly" % (len(KEYS), len(cells), ",".join(CTX_ALL)),
         rule="distinct = (operator, operand classes, context) triples resp. statement cells; non-trivial = admitted by the frontend, i.e. the code generator ran on it"))
